@@ -133,9 +133,9 @@ func (r *run) execBlock(fr *frame, b *ssa.BasicBlock, st *State, reach string, i
 
 func (r *run) execPanic(fr *frame, st *State, x *ssa.Panic, reach string) {
 	top := fr.root
-	if top != nil && top.contract != nil && (top.contract.MayPanic || len(top.contract.PanicsWhen) > 0) && fr == top {
+	if top != nil && top.contract != nil && (top.contract.MayPanic && fr == top || len(top.contract.PanicsWhen) > 0) {
 		if len(top.contract.PanicsWhen) > 0 {
-			env := r.newEnv(fr, st)
+			env := r.newEnv(top, st)
 			env.ensMode = true
 			var cs []string
 			for _, pw := range top.contract.PanicsWhen {
